@@ -234,11 +234,24 @@ def run(chk: Check, repo: Repo) -> None:
             if isinstance(v, EnumMember):
                 return v
         return UNKNOWN
+    xo = Obj("XKNX", "x")
+    r1, r2, u3 = Obj("Task", "t1", (("xknx", xo),)), Obj("Task", "t2", (("xknx", xo),)), Obj("Task", "t3", (("xknx", None),))
     for st in states:
-        cfg, paths = _run(repo, f, reg_calls, {"state": EnumMember("xknx.core.connection_state:XknxConnectionState", st), "self.tasks": AList((t1, t2))}, hook)
+        # t3 stands for a task a target started eagerly has removed during this very dispatch (flag cleared): it is passed over
+        cfg, paths = _run(repo, f, reg_calls, {"state": EnumMember("xknx.core.connection_state:XknxConnectionState", st), "self.tasks": AList((r1, u3, r2))}, hook)
         got = {tuple(p.env.get("trace", ())) for p in paths}
         want = {("reconnected:t1", "reconnected:t2")} if st == "CONNECTED" else {("connection_lost:t1", "connection_lost:t2")}
         chk.ob("registry-connection-state", f.site(), got == want, f"state={st}: {sorted(got)}; reference {sorted(want)}", key=f"reg-state|{st}")
+    # the targets a reconnection starts may run at once (eager task factory - Home Assistant's loop) and register or remove
+    # tasks: the dispatch walks a snapshot; and start() registers the connection callback once however often it is called
+    from .common_rules import dispatch_iterates_a_snapshot
+    dispatch_iterates_a_snapshot(chk, repo, f, "tasks", "Task.reconnected / connection_lost", "snapshot|registry-tasks")
+    sf = R("start"); chk.unit(sf)
+    scfg_ = CFG(sf.node)
+    regs = [n for n in scfg_.nodes if n.ast is not None and n.kind == "stmt" and any(call_name(c).endswith(".register_connection_state_changed_cb") for c in calls(n.ast))]
+    unregs = [n for n in scfg_.nodes if n.ast is not None and n.kind == "stmt" and any(call_name(c).endswith(".unregister_connection_state_changed_cb") for c in calls(n.ast))]
+    once = len(regs) == 1 and (any(scfg_.dominates(u.id, regs[0].id) for u in unregs) or any("connection_state_changed_cb" in a_ and " not in " in a_ and v_ for a_, v_ in scfg_.must_facts()[regs[0].id]))
+    chk.ob("connection-callback-registered-once", sf.site(), once, "TaskRegistry.start() registers its connection callback once (unregisters first / tests membership)" if once else "TaskRegistry.start() appends its connection callback on every call: after a failed and retried XKNX.start() every reconnection runs reconnected() twice per task - with an eagerly started target it runs twice", key="registry-start|once")
     chk.count("connection_states", len(states))
     # a task outside the registry is not started: `Task.restart()` (cancel, then `_start()`, which raises RuntimeError for an
     # unregistered task) is called outside xknx.core.task_registry only where `<task>.xknx is not None` holds - a device
